@@ -54,6 +54,50 @@ def run(model, rep, tier):
     jv = ci.methods.get('jumpnetworkevaluator_vacancy')
     if je is None or jv is None:
         raise AnalysisError('anchor vanished: ClusterSupercell.jumpnetworkevaluator(_vacancy)')
+    # ---- memoisation inside the evaluators must be keyed on everything the stored value depends on
+    from ..engines import memo
+    rep.rule('cache-key-complete', 'a memo inside the evaluators is keyed on every loop variable the stored value depends on')
+    nmemo = 0
+    for fn, q in ((je, 'jumpnetworkevaluator'), (jv, 'jumpnetworkevaluator_vacancy')):
+        for node, d, key, vdeps, kdeps in memo.local_memo_stores(fn):
+            nmemo += 1
+            missing = sorted(vdeps - kdeps)
+            rep.ob('cache-key-complete', mod, node, '%s: memo %s[%s]' % (q, d, unparse(key)), not missing,
+                   '' if not missing else 'the stored lists depend on %s but the key does not: another jump with the same key reuses the '
+                                          'interaction lists of the wrong sites, so forward and backward barriers no longer differ by the '
+                                          'energy difference' % ', '.join(missing), engine='memo', qual='ClusterSupercell.' + q)
+    rep.count('local memo caches in the evaluators', nmemo)
+    # ---- every cluster is split into its mobile and its spectator sites by the two index tables (a partition)
+    rep.rule('site-partition', 'cluster sites are split by `ci in self.indexmobile` / `ci in self.indexspectator` everywhere')
+    nsplit = 0
+    for q, fn in sorted(ci.methods.items()):
+        for n in walk_local(fn):
+            if not (isinstance(n, ast.Assign) and isinstance(n.targets[0], ast.Name)):
+                continue
+            comps = [c for c in ast.walk(n.value) if isinstance(c, ast.ListComp) and c.generators[0].ifs]
+            for c in comps:
+                cond = unparse(c.generators[0].ifs[0])
+                if not cond.endswith('in self.indexspectator'):
+                    continue
+                # the statement just before/after in the same block builds the mobile list from the same source
+                blk = getattr(n, '_parent', None)
+                body = [b for fld in ('body', 'orelse') for b in getattr(blk, fld, []) or []]
+                if n not in body:
+                    continue
+                k = body.index(n)
+                sib = [b for b in body[max(0, k - 1):k + 2] if b is not n and isinstance(b, ast.Assign)]
+                src = unparse(c.generators[0].iter)
+                for b in sib:
+                    for c2 in [x for x in ast.walk(b.value) if isinstance(x, ast.ListComp) and x.generators[0].ifs
+                               and unparse(x.generators[0].iter) == src]:
+                        nsplit += 1
+                        v2 = unparse(c2.generators[0].target)
+                        ok = unparse(c2.generators[0].ifs[0]) == '%s.ci in self.indexmobile' % v2
+                        rep.ob('site-partition', mod, b, '%s: %s' % (q, unparse(b)[:110]), ok,
+                               '' if ok else 'the mobile part of a cluster is not "every site that is not a spectator": sites of another mobile '
+                                             'species are dropped (treated as always occupied) in the barrier but not in the energy',
+                               engine='siblings', qual='ClusterSupercell.' + q)
+    rep.floor('mobile/spectator splits', nsplit, 7)
     # ---- non-vacancy evaluator
     lists = {}
     for n in walk_local(je):
